@@ -1,1 +1,575 @@
-// harness file dp_peripheral (see /verif/DESIGN.md)
+// C03 / C04 / C08 / C17 harnesses: one DP peripheral state machine step (src/dp/peripheral.rs).
+//
+// Included as `crate::dp::peripheral::verif` under cfg(kani).
+//
+// One-step inductive shape: the pre-state is symbolic under the representation invariant
+// `inv_dp`, one real `transmit_telegram` / `receive_reply` runs with symbolic inputs, and the
+// post-state is compared with a reference transition function written from the DP-V0 slave
+// bring-up sequence (Slave_Diag -> Set_Prm -> Chk_Cfg -> Slave_Diag -> Data_Exchange).
+
+use super::*;
+use crate::fdl::{
+    DataTelegram, DataTelegramHeader, FdlActiveStation, FrameCountBit, FunctionCode, HighPrioOnly,
+    Parameters, RequestType, ResponseState, ResponseStatus, ShortConfirmation, Telegram, TelegramTx,
+};
+use crate::verif_support::*;
+
+pub(crate) fn any_pstate() -> PeripheralState {
+    match kani::any::<u8>() {
+        0 => PeripheralState::Offline,
+        1 => PeripheralState::WaitForParam,
+        2 => PeripheralState::WaitForConfig,
+        3 => PeripheralState::ValidateConfig,
+        4 => PeripheralState::PreDataExchange,
+        _ => PeripheralState::DataExchange,
+    }
+}
+
+pub(crate) fn any_live_fcb() -> FrameCountBit {
+    match kani::any::<u8>() {
+        0 => FrameCountBit::First,
+        1 => FrameCountBit::High,
+        _ => FrameCountBit::Low,
+    }
+}
+
+pub(crate) fn cycled(f: FrameCountBit) -> FrameCountBit {
+    // reference: after the first request the bit alternates, starting with 0
+    match f {
+        FrameCountBit::First => FrameCountBit::Low,
+        FrameCountBit::High => FrameCountBit::Low,
+        FrameCountBit::Low => FrameCountBit::High,
+        FrameCountBit::Inactive => FrameCountBit::Inactive,
+    }
+}
+
+pub(crate) fn in_dx(s: PeripheralState) -> bool {
+    matches!(s, PeripheralState::PreDataExchange | PeripheralState::DataExchange)
+}
+
+/// FDL station whose parameters (the only thing the DP layer reads) are symbolic.
+pub(crate) fn any_fdl() -> FdlActiveStation {
+    let address: u8 = kani::any();
+    kani::assume(address <= 125);
+    let max_retry_limit: u8 = kani::any();
+    kani::assume(max_retry_limit >= 1 && max_retry_limit <= 15);
+    let min_tsdr_bits: u8 = kani::any();
+    kani::assume(min_tsdr_bits >= 11);
+    let watchdog_factors = if kani::any() {
+        let f1: u8 = kani::any();
+        let f2: u8 = kani::any();
+        kani::assume(f1 >= 1 && f2 >= 1);
+        Some((f1, f2))
+    } else {
+        None
+    };
+    FdlActiveStation::new(Parameters {
+        address,
+        max_retry_limit,
+        min_tsdr_bits,
+        watchdog_factors,
+        ..Default::default()
+    })
+}
+
+/// Symbolic peripheral over caller-provided buffers.  Everything the state machine reads is
+/// symbolic; `inv_dp` constrains it to the representation invariant.
+pub(crate) fn any_peripheral<'a>(
+    pi_i: &'a mut [u8],
+    pi_q: &'a mut [u8],
+    diag_buf: &'a mut [u8],
+    user_parameters: Option<&'a [u8]>,
+    config: Option<&'a [u8]>,
+) -> Peripheral<'a> {
+    let address: u8 = kani::any();
+    let ext_len: usize = kani::any();
+    kani::assume(ext_len <= diag_buf.len());
+    let diag = if kani::any() {
+        Some(DiagnosticsInfo {
+            flags: DiagnosticFlags::from_bits_retain(kani::any()),
+            ident_number: kani::any(),
+            master_address: if kani::any() { Some(kani::any()) } else { None },
+        })
+    } else {
+        None
+    };
+    Peripheral {
+        address,
+        state: any_pstate(),
+        retry_count: kani::any(),
+        fcb: any_live_fcb(),
+        pi_i: managed::ManagedSlice::Borrowed(pi_i),
+        pi_q: managed::ManagedSlice::Borrowed(pi_q),
+        diag,
+        ext_diag: crate::dp::diagnostics::verif::mk_ext_diag(diag_buf, ext_len),
+        diag_needed: kani::any(),
+        options: PeripheralOptions {
+            ident_number: kani::any(),
+            sync_mode: kani::any(),
+            freeze_mode: kani::any(),
+            groups: kani::any(),
+            max_tsdr: kani::any(),
+            fail_safe: kani::any(),
+            user_parameters,
+            config,
+        },
+    }
+}
+
+/// Representation invariant of a peripheral (inductive: holds for `Peripheral::new`, preserved by
+/// every `transmit_telegram` / `receive_reply` / `request_diagnostics`; proved by the step
+/// harnesses below, which assume it before and assert it after).
+pub(crate) fn inv_dp(p: &Peripheral, fdl: &FdlActiveStation) -> bool {
+    p.address <= 125
+        && p.retry_count <= fdl.parameters().max_retry_limit + 1
+        && (p.state != PeripheralState::Offline || p.retry_count <= 1)
+        && p.fcb != FrameCountBit::Inactive
+}
+
+#[derive(Clone, Copy, PartialEq, Eq)]
+enum ReqKind {
+    None,
+    Diag,
+    SetPrm,
+    ChkCfg,
+    DataExchange,
+}
+
+/// Which request the reference DP master sends next for a peripheral in this state.
+fn ref_next_request(state: PeripheralState, retry_count: u8, limit: u8, diag_needed: bool, has_prm: bool, has_cfg: bool) -> ReqKind {
+    if retry_count > limit {
+        return ReqKind::None; // declared offline in this call
+    }
+    match state {
+        PeripheralState::Offline => {
+            if retry_count == 0 {
+                ReqKind::Diag
+            } else {
+                ReqKind::None
+            }
+        }
+        PeripheralState::WaitForParam => {
+            if has_prm {
+                ReqKind::SetPrm
+            } else {
+                ReqKind::None
+            }
+        }
+        PeripheralState::WaitForConfig => {
+            if has_cfg {
+                ReqKind::ChkCfg
+            } else {
+                ReqKind::None
+            }
+        }
+        PeripheralState::ValidateConfig => ReqKind::Diag,
+        PeripheralState::PreDataExchange | PeripheralState::DataExchange => {
+            if diag_needed {
+                ReqKind::Diag
+            } else {
+                ReqKind::DataExchange
+            }
+        }
+    }
+}
+
+// ==========================================================================================
+// transmit step: C03 (PDU contents, DX only in S_dx), C04 (DX payload == pi_q), C08 (retry limit,
+// Offline event, FCB on the wire)
+// ==========================================================================================
+
+fn transmit_step<const U: usize, const C: usize, const Q: usize, const B: usize>() {
+    let mut pi_i = [0u8; 2];
+    let mut pi_q_store: [u8; Q] = kani::any();
+    let qlen: usize = kani::any();
+    kani::assume(qlen <= Q);
+    let user_store: [u8; U] = kani::any();
+    let ulen: usize = kani::any();
+    kani::assume(ulen <= U);
+    let cfg_store: [u8; C] = kani::any();
+    let clen: usize = kani::any();
+    kani::assume(clen <= C);
+    let has_prm: bool = kani::any();
+    let has_cfg: bool = kani::any();
+    let mut diag_buf = [0u8; 4];
+
+    let fdl = any_fdl();
+    let op = crate::dp::master::verif::any_operating();
+    let dp = crate::dp::master::verif::mk_dp_state(op);
+    let pi_q_copy = pi_q_store;
+    let mut p = any_peripheral(
+        &mut pi_i[..],
+        &mut pi_q_store[..qlen],
+        &mut diag_buf[..],
+        if has_prm { Some(&user_store[..ulen]) } else { None },
+        if has_cfg { Some(&cfg_store[..clen]) } else { None },
+    );
+    kani::assume(inv_dp(&p, &fdl));
+
+    let pre_state = p.state;
+    let pre_rc = p.retry_count;
+    let pre_fcb = p.fcb;
+    let pre_dn = p.diag_needed;
+    let addr = p.address;
+    let limit = fdl.parameters().max_retry_limit;
+    let hp = if kani::any() { HighPrioOnly::Yes } else { HighPrioOnly::No };
+    let now = crate::time::Instant::from_micros(kani::any::<u32>());
+
+    let mut buf = [0xAAu8; B];
+    let (sent, event) = match p.transmit_telegram(now, &dp, &fdl, TelegramTx::new(&mut buf), hp) {
+        Ok(r) => (Some(r), None),
+        Err((_tx, ev)) => (None, ev),
+    };
+
+    let want = ref_next_request(pre_state, pre_rc, limit, pre_dn, has_prm, has_cfg);
+
+    // ---- C08: retry limit and Offline event -------------------------------------------------
+    if pre_rc > limit {
+        assert!(sent.is_none(), "C08/retry-limit: nothing is transmitted once 1+max_retry_limit transmissions went unanswered");
+        assert!(event == Some(PeripheralEvent::Offline), "C08/offline-event: exceeding the retry limit raises the Offline event");
+        assert!(p.state == PeripheralState::Offline && !p.is_live(), "C08/offline-event: the peripheral is offline afterwards");
+        assert!(pre_state != PeripheralState::Offline, "C14/lifecycle: Offline is raised only while the peripheral was live");
+        assert!(p.retry_count == 0, "C08/offline-probe: the retry counter restarts for the offline probe");
+        assert!(p.fcb == FrameCountBit::First, "C08/first-after-offline: the frame count bit is re-initialised (FCV=0/FCB=1) when the peripheral is declared offline");
+        kani::cover!(pre_state == PeripheralState::DataExchange, "cover: running peripheral declared offline");
+    } else {
+        assert!(event.is_none(), "C08/offline-event: no event without exceeding the retry limit");
+        assert!(p.state == pre_state, "C03/tx-no-transition: transmitting does not change the bring-up state");
+    }
+    assert!(sent.is_some() == (want != ReqKind::None), "C03/request-kind: a request is sent exactly when the bring-up sequence has one to send");
+    assert!(p.fcb == pre_fcb || (event.is_some() && p.fcb == FrameCountBit::First), "C08/fcb-tx: transmitting never toggles the frame count bit");
+    assert!(p.diag_needed == pre_dn, "C08/tx-frame: a transmission does not change the pending-diagnostics flag");
+
+    if let Some(r) = sent {
+        assert!(pre_rc <= limit, "C08/retry-limit: a request goes out only within 1+max_retry_limit transmissions");
+        assert!(p.retry_count == pre_rc + 1, "C08/retry-count: every transmission is counted");
+        if pre_state == PeripheralState::Offline {
+            assert!(want == ReqKind::Diag, "C08/offline-probe: an offline peripheral is only probed with diagnostics requests");
+        }
+
+        // reference header and PDU
+        let (dsap, ssap, req, plen) = match want {
+            ReqKind::Diag => (Some(60u8), Some(62u8), RequestType::SrdLow, 0usize),
+            ReqKind::SetPrm => (Some(61), Some(62), RequestType::SrdLow, 7 + ulen),
+            ReqKind::ChkCfg => (Some(62), Some(62), RequestType::SrdLow, clen),
+            ReqKind::DataExchange => (None, None, RequestType::SrdHigh, qlen),
+            ReqKind::None => unreachable!(),
+        };
+        let h = DataTelegramHeader {
+            da: addr,
+            sa: fdl.parameters().address,
+            dsap,
+            ssap,
+            fc: FunctionCode::Request { fcb: pre_fcb, req },
+        };
+        let opts_ident = p.options.ident_number;
+        let (sync, freeze, groups) = (p.options.sync_mode, p.options.freeze_mode, p.options.groups);
+        let wd = fdl.parameters().watchdog_factors;
+        let min_tsdr = fdl.parameters().min_tsdr_bits;
+        let pdu = |i: usize| -> u8 {
+            match want {
+                ReqKind::SetPrm => match i {
+                    0 => 0x80 | if sync { 0x20 } else { 0 } | if freeze { 0x10 } else { 0 } | if wd.is_some() { 0x08 } else { 0 },
+                    1 => wd.map(|w| w.0).unwrap_or(0),
+                    2 => wd.map(|w| w.1).unwrap_or(0),
+                    3 => min_tsdr,
+                    4 => (opts_ident >> 8) as u8,
+                    5 => (opts_ident & 0xff) as u8,
+                    6 => groups,
+                    _ => user_store[i - 7],
+                },
+                ReqKind::ChkCfg => cfg_store[i],
+                ReqKind::DataExchange => {
+                    if op == crate::dp::OperatingState::Operate {
+                        pi_q_copy[i]
+                    } else {
+                        0
+                    }
+                }
+                _ => 0,
+            }
+        };
+        let mut expect = [0u8; B];
+        let elen = ref_encode(&h, plen, pdu, &mut expect);
+        assert!(r.bytes_sent() == elen, "C03/wire: frame length equals the reference frame");
+        assert!(r.expects_reply() == Some(addr), "C03/wire: the request expects a reply from the peripheral");
+        let mut i = 0;
+        while i < elen {
+            assert!(buf[i] == expect[i], "C03/wire: request bytes equal the reference frame (SAPs, function code, FCB/FCV, PDU)");
+            i += 1;
+        }
+        if want == ReqKind::DataExchange {
+            assert!(in_dx(pre_state), "C03/dx-only-after-bringup: a Data_Exchange request is sent only in the data exchange states");
+            kani::cover!(qlen == Q && op == crate::dp::OperatingState::Operate, "cover: full-size output image sent");
+            kani::cover!(op == crate::dp::OperatingState::Clear && qlen > 0, "cover: Clear state sends zeros");
+        }
+        kani::cover!(want == ReqKind::SetPrm && ulen == U && wd.is_some(), "cover: Set_Prm with watchdog and full user data");
+        kani::cover!(want == ReqKind::ChkCfg && clen == C, "cover: Chk_Cfg with full config");
+        kani::cover!(want == ReqKind::Diag && pre_state == PeripheralState::Offline, "cover: offline probe");
+    } else if event.is_none() {
+        assert!(p.retry_count == 0, "C08/retry-count: declining resets the retry counter");
+    }
+    // process images untouched
+    let mut i = 0;
+    while i < qlen {
+        assert!(p.pi_q()[i] == pi_q_copy[i], "C04/pi-q-readonly: transmitting never writes the output image");
+        i += 1;
+    }
+    assert!(inv_dp(&p, &fdl), "C03/inv: representation invariant preserved by transmit_telegram");
+}
+
+#[kani::proof]
+#[kani::unwind(24)]
+fn c03_transmit_step_q() {
+    // user prm <= 4, config <= 4, outputs <= 4; largest frame 7+4+2+9 = 22
+    transmit_step::<4, 4, 4, 22>();
+}
+
+#[kani::proof]
+#[kani::unwind(52)]
+fn c03_transmit_step_t() {
+    // user prm <= 32, config <= 32, outputs <= 32; largest frame 7+32+2+9 = 50
+    transmit_step::<32, 32, 32, 50>();
+}
+
+// ==========================================================================================
+// receive step: C03 (transition relation), C04 (input image), C08 (FCB toggles on accepted
+// replies), C14 (life-cycle of events), C17 (diagnostics decoding)
+// ==========================================================================================
+
+fn receive_step<const I: usize, const D: usize, const P: usize>() {
+    let mut pi_i_store: [u8; I] = kani::any();
+    let ilen: usize = kani::any();
+    kani::assume(ilen <= I);
+    let mut pi_q_store = [0x5Au8; 2];
+    let mut diag_store: [u8; D] = kani::any();
+    let dcap: usize = kani::any();
+    kani::assume(dcap <= D);
+    let pi_i_before = pi_i_store;
+
+    let fdl = any_fdl();
+    let dp = crate::dp::master::verif::mk_dp_state(crate::dp::master::verif::any_operating());
+    let mut p = any_peripheral(&mut pi_i_store[..ilen], &mut pi_q_store[..], &mut diag_store[..dcap], None, None);
+    kani::assume(inv_dp(&p, &fdl));
+
+    let pre_state = p.state;
+    let pre_rc = p.retry_count;
+    let pre_fcb = p.fcb;
+    let pre_dn = p.diag_needed;
+    let pre_ext_len = crate::dp::diagnostics::verif::ext_diag_len(&p.ext_diag);
+    let pre_diag = p.diag.clone();
+    let addr = p.address;
+
+    // The reply: anything the FDL layer can deliver (C15 admission): SC, or a data telegram with
+    // a response function code from the peripheral's address to this station.
+    let pdu_store: [u8; P] = kani::any();
+    let plen: usize = kani::any();
+    kani::assume(plen <= P);
+    let is_sc: bool = kani::any();
+    let dsap = any_sap();
+    let ssap = any_sap();
+    let rstate = any_response_state();
+    let rstatus = any_response_status();
+    let telegram = if is_sc {
+        Telegram::ShortConfirmation(ShortConfirmation)
+    } else {
+        Telegram::Data(DataTelegram {
+            h: DataTelegramHeader {
+                da: fdl.parameters().address,
+                sa: addr,
+                dsap,
+                ssap,
+                fc: FunctionCode::Response { state: rstate, status: rstatus },
+            },
+            pdu: &pdu_store[..plen],
+        })
+    };
+    let now = crate::time::Instant::from_micros(kani::any::<u32>());
+
+    let event = p.receive_reply(now, &dp, &fdl, telegram);
+
+    // ---- reference classification of the reply ----------------------------------------------
+    let diag_ok = !is_sc && dsap == Some(62) && ssap == Some(60) && plen >= 6;
+    let flags = u16::from(pdu_store[0]) | (u16::from(pdu_store[1]) << 8);
+    const NOT_READY: u16 = 0x0002;
+    const CFG_FAULT: u16 = 0x0004;
+    const EXT_DIAG: u16 = 0x0008;
+    const PRM_FAULT: u16 = 0x0040;
+    const PRM_REQ: u16 = 0x0100;
+    const PERMANENT: u16 = 0x0400;
+    let diag_expected = pre_state == PeripheralState::Offline
+        || pre_state == PeripheralState::ValidateConfig
+        || (in_dx(pre_state) && pre_dn);
+
+    // ---- C03: transition relation -------------------------------------------------------------
+    let want_state = match pre_state {
+        PeripheralState::Offline => {
+            if diag_ok { PeripheralState::WaitForParam } else { PeripheralState::Offline }
+        }
+        PeripheralState::WaitForParam => {
+            if is_sc { PeripheralState::WaitForConfig } else { PeripheralState::WaitForParam }
+        }
+        PeripheralState::WaitForConfig => {
+            if is_sc { PeripheralState::ValidateConfig } else { PeripheralState::WaitForConfig }
+        }
+        PeripheralState::ValidateConfig => {
+            if !diag_ok {
+                PeripheralState::ValidateConfig
+            } else if flags & PRM_FAULT != 0 || flags & CFG_FAULT != 0 {
+                PeripheralState::Offline
+            } else if flags & PRM_REQ != 0 {
+                PeripheralState::WaitForParam
+            } else if flags & NOT_READY == 0 {
+                PeripheralState::PreDataExchange
+            } else {
+                PeripheralState::ValidateConfig
+            }
+        }
+        s => s, // data exchange states: checked below
+    };
+    if !in_dx(pre_state) {
+        assert!(p.state == want_state, "C03/transition: bring-up state follows the DP slave bring-up sequence");
+        if in_dx(p.state) {
+            assert!(
+                pre_state == PeripheralState::ValidateConfig && diag_ok && flags & (PRM_FAULT | CFG_FAULT | PRM_REQ | NOT_READY) == 0,
+                "C03/dx-only-after-bringup: data exchange is entered only from config validation by a ready diagnostics reply"
+            );
+            kani::cover!(true, "cover: peripheral becomes ready for data exchange");
+        }
+        let want_event = match (pre_state, p.state) {
+            (PeripheralState::Offline, PeripheralState::WaitForParam) => Some(PeripheralEvent::Online),
+            (PeripheralState::ValidateConfig, PeripheralState::PreDataExchange) => Some(PeripheralEvent::Configured),
+            (PeripheralState::ValidateConfig, PeripheralState::Offline) => {
+                if flags & PRM_FAULT != 0 { Some(PeripheralEvent::ParameterError) } else { Some(PeripheralEvent::ConfigError) }
+            }
+            _ => None,
+        };
+        assert!(event == want_event, "C14/lifecycle: Online on leaving Offline, Configured on entering data exchange, Parameter/ConfigError on a fault report, nothing else");
+    } else if pre_dn {
+        assert!(p.state == pre_state, "C03/transition: a diagnostics round in data exchange does not change the state");
+        assert!(event == if diag_ok { Some(PeripheralEvent::Diagnostics) } else { None }, "C14/lifecycle: Diagnostics event exactly for a well-formed diagnostics reply");
+        assert!(p.diag_needed == !diag_ok, "C03/transition: the diagnostics request is cleared exactly by a well-formed diagnostics reply");
+    }
+
+    // ---- C04: input process image -------------------------------------------------------------
+    let mut changed = false;
+    let mut equals_pdu = ilen == plen;
+    let mut i = 0;
+    while i < ilen {
+        if p.pi_i()[i] != pi_i_before[i] {
+            changed = true;
+        }
+        if i < plen && p.pi_i()[i] != pdu_store[i] {
+            equals_pdu = false;
+        }
+        i += 1;
+    }
+    assert!(p.pi_i().len() == ilen, "C04/pi-i: the input image keeps its configured length");
+    let status_bad = matches!(rstatus, ResponseStatus::UserError | ResponseStatus::NoResources | ResponseStatus::SapNotEnabled | ResponseStatus::NoDataReady);
+    let dx_round = in_dx(pre_state) && !pre_dn;
+    if changed {
+        assert!(dx_round, "C04/pi-i-necessary: the input image changes only in a data exchange round (no diagnostics outstanding)");
+        assert!(!is_sc && plen == ilen && !status_bad, "C04/pi-i-necessary: only a data reply of exactly the configured length without error status changes the input image");
+        assert!(equals_pdu, "C04/pi-i-equals: after an update the input image equals the reply payload byte for byte");
+    }
+    if dx_round && !is_sc && plen == ilen && matches!(rstatus, ResponseStatus::DataLow | ResponseStatus::DataHigh) {
+        assert!(equals_pdu, "C04/pi-i-sufficient: a well-formed Data_Exchange reply of the configured length updates the input image");
+        assert!(event == Some(PeripheralEvent::DataExchanged), "C04/event: DataExchanged is reported for an update");
+        assert!(p.state == PeripheralState::DataExchange && p.is_running(), "C14/lifecycle: DataExchanged implies the peripheral is running");
+        kani::cover!(ilen == I, "cover: full-size input image updated");
+    }
+    if event == Some(PeripheralEvent::DataExchanged) {
+        assert!(dx_round, "C04/event: DataExchanged only in a data exchange round");
+        assert!(
+            (!is_sc && plen == ilen && !status_bad && equals_pdu) || (is_sc && ilen == 0),
+            "C04/event: DataExchanged iff the input image was updated (or SC for an input-less peripheral)"
+        );
+        assert!(p.is_running(), "C14/lifecycle: DataExchanged implies is_running()");
+    }
+    if dx_round && is_sc && ilen == 0 {
+        assert!(event == Some(PeripheralEvent::DataExchanged), "C04/event: SC to an input-less peripheral counts as data exchange");
+    }
+    if dx_round {
+        let want = if !is_sc && rstatus == ResponseStatus::SapNotEnabled {
+            PeripheralState::ValidateConfig
+        } else if event == Some(PeripheralEvent::DataExchanged) {
+            PeripheralState::DataExchange
+        } else {
+            pre_state
+        };
+        assert!(p.state == want, "C03/transition: data exchange continues; 'SAP not enabled' sends the peripheral back to config validation");
+    }
+    assert!(p.pi_q()[0] == 0x5A && p.pi_q()[1] == 0x5A, "C04/pi-q-readonly: a reply never writes the output image");
+
+    // ---- C17: diagnostics decoding ------------------------------------------------------------
+    let post_ext_len = crate::dp::diagnostics::verif::ext_diag_len(&p.ext_diag);
+    if diag_expected && diag_ok {
+        let d = p.last_diagnostics().unwrap();
+        assert!(d.flags.bits() == flags & !PERMANENT, "C17/decode-flags: reported flags equal the first two reply bytes (little endian), without the always-one permanent bit");
+        assert!(d.ident_number == (u16::from(pdu_store[4]) << 8 | u16::from(pdu_store[5])), "C17/decode-ident: ident number equals reply bytes 4..6 (big endian)");
+        assert!(d.master_address == if pdu_store[3] == 255 { None } else { Some(pdu_store[3]) }, "C17/decode-master: master address equals reply byte 3 (255 = none)");
+        let fits = dcap > 0 && plen - 6 <= dcap;
+        if flags & EXT_DIAG != 0 && fits {
+            assert!(post_ext_len == plen - 6, "C17/store: extended diagnostics stored when they fit");
+            let raw = d.extended_diagnostics.raw_diag_buffer().unwrap();
+            let mut i = 0;
+            while i < plen - 6 {
+                assert!(raw[i] == pdu_store[6 + i], "C17/store: stored extended diagnostics equal the reply's tail");
+                i += 1;
+            }
+            kani::cover!(plen == P && plen - 6 == dcap, "cover: exactly fitting extended diagnostics");
+        } else {
+            assert!(post_ext_len == pre_ext_len, "C17/store: extended diagnostics that are absent or do not fit leave the stored ones unchanged");
+            kani::cover!(flags & EXT_DIAG != 0 && dcap > 0 && plen - 6 > dcap, "cover: oversize extended diagnostics ignored");
+        }
+    } else {
+        assert!(post_ext_len == pre_ext_len, "C17/store: only a diagnostics reply touches the stored extended diagnostics");
+        assert!(p.diag == pre_diag, "C17/decode: only a well-formed diagnostics reply changes the reported diagnostics");
+    }
+
+    // ---- C08: FCB and retry counter on replies -------------------------------------------------
+    let observable_change = p.state != pre_state || event.is_some() || changed || p.diag != pre_diag;
+    assert!(p.fcb == pre_fcb || p.fcb == cycled(pre_fcb), "C08/fcb-rx: a reply leaves the frame count bit or toggles it (FCV=1 afterwards)");
+    if observable_change {
+        assert!(p.fcb == cycled(pre_fcb), "C08/toggle-after-accepted-reply: a reply that changed observable state toggles the frame count bit");
+        assert!(p.retry_count == 0, "C08/retry-count: an accepted reply resets the retry counter");
+    }
+    if p.fcb == pre_fcb {
+        assert!(p.retry_count == pre_rc || p.retry_count == 0, "C08/retry-count: a rejected reply never increases the retry counter");
+    }
+    assert!(inv_dp(&p, &fdl), "C03/inv: representation invariant preserved by receive_reply");
+    kani::cover!(pre_state == PeripheralState::ValidateConfig && p.state == PeripheralState::Offline, "cover: fault report in config validation");
+    kani::cover!(pre_state == PeripheralState::ValidateConfig && p.state == PeripheralState::WaitForParam, "cover: parameter request in config validation");
+    kani::cover!(dx_round && p.state == PeripheralState::ValidateConfig, "cover: SAP not enabled in data exchange");
+}
+
+#[kani::proof]
+#[kani::unwind(14)]
+fn c03_receive_step_q() {
+    // inputs <= 4, diagnostics buffer <= 4, reply PDU <= 10 (6 standard + 4 extended)
+    receive_step::<4, 4, 10>();
+}
+
+#[kani::proof]
+#[kani::unwind(44)]
+fn c03_receive_step_t() {
+    // inputs <= 32, diagnostics buffer <= 32, reply PDU <= 40
+    receive_step::<32, 32, 40>();
+}
+
+/// The invariant holds initially and `request_diagnostics` / output writes preserve it.
+#[kani::proof]
+fn c03_inv_initial() {
+    let mut pi_i = [0u8; 2];
+    let mut pi_q = [0u8; 2];
+    let fdl = any_fdl();
+    let address: u8 = kani::any();
+    kani::assume(address <= 125);
+    let mut p = Peripheral::new(address, PeripheralOptions::default(), &mut pi_i[..], &mut pi_q[..]);
+    assert!(inv_dp(&p, &fdl), "C03/inv: representation invariant holds for a new peripheral");
+    assert!(!p.is_live() && !p.is_running() && p.fcb == FrameCountBit::First, "C08/first-request: a new peripheral starts offline with the initial frame count bit");
+    p.request_diagnostics();
+    p.pi_q_mut()[0] = kani::any();
+    assert!(inv_dp(&p, &fdl), "C03/inv: user calls preserve the invariant");
+    kani::cover!(true, "cover: new peripheral");
+}
